@@ -448,6 +448,120 @@ fn explore_grammar(ctx: &Ctx, env: &Env, g: &(String, String), depth: usize) {
     unsafe { llg_free_matcher(cm) };
 }
 
+
+/// the C functions that write tokens or text into caller buffers: every buffer length from 0 to the needed
+/// size + 2, between canaries, pre-filled with a pattern; returned count, written prefix, NUL terminator,
+/// untouched tail and canaries are judged against the Rust objects
+fn text_buffers(ctx: &Ctx, env: &Env, renv: &TokEnv) -> Result<(), Violation> {
+    use toktrie::TokenizerEnv;
+    let g = ("none".to_string(), "text buffers".to_string());
+    let v = |check: &str, what: serde_json::Value| viol(check, "ffi-buffer", &g, env.n_vocab, &[], what);
+    let trie = renv.tok_trie();
+    const CAN: u32 = 0xC0FFEE11;
+    const FILL: u32 = 0xA5A5A5A5;
+    let texts: Vec<Vec<u8>> = vec![b"".to_vec(), b"a".to_vec(), b"abxx".to_vec(), b"{\"a\":12} ab".to_vec(), b"ab\xFF<eos>cd".to_vec(), b"\xFF[3]x".to_vec()];
+    for text in texts.iter() {
+        for marker in [false, true] {
+            let exp: Vec<u32> = if marker { renv.tokenize_bytes_marker(text).0 } else if text.contains(&0xFF) { continue } else { renv.tokenize_bytes(text) };
+            for out_len in 0..=exp.len() + 2 {
+                let mut buf = vec![FILL; out_len + 4];
+                buf[0] = CAN;
+                buf[1] = CAN;
+                buf[out_len + 2] = CAN;
+                buf[out_len + 3] = CAN;
+                let n = unsafe {
+                    if marker {
+                        llg_tokenize_bytes_marker(&*env.ctok.ptr, text.as_ptr(), text.len(), buf.as_mut_ptr().add(2), out_len)
+                    } else {
+                        llg_tokenize_bytes(&*env.ctok.ptr, text.as_ptr(), text.len(), buf.as_mut_ptr().add(2), out_len)
+                    }
+                };
+                ctx.count("text_buffer_calls", 1);
+                let k = exp.len().min(out_len);
+                if n != exp.len() || buf[2..2 + k] != exp[..k] || buf[2 + k..2 + out_len].iter().any(|x| *x != FILL) || buf[0] != CAN || buf[1] != CAN || buf[out_len + 2] != CAN || buf[out_len + 3] != CAN {
+                    return Err(v("tokenize_bytes_buffer", json!({"text": show(text), "marker": marker, "out_len": out_len, "returned": n, "expected": exp, "buffer": buf})));
+                }
+            }
+            // null output: the count alone
+            let n = unsafe { if marker { llg_tokenize_bytes_marker(&*env.ctok.ptr, text.as_ptr(), text.len(), std::ptr::null_mut(), 0) } else { llg_tokenize_bytes(&*env.ctok.ptr, text.as_ptr(), text.len(), std::ptr::null_mut(), 0) } };
+            if n != exp.len() {
+                return Err(v("tokenize_bytes_count", json!({"text": show(text), "marker": marker, "returned": n, "expected": exp.len()})));
+            }
+        }
+    }
+    let eos = env.ctok.eos;
+    let lists: Vec<Vec<u32>> = vec![vec![], vec![0], vec![0, 1, 2], vec![0, eos, 1], vec![eos], (0..8u32).collect()];
+    for toks in lists.iter() {
+        for mode in 0..5u32 {
+            // modes 0..3: llg_decode_tokens with these flags; mode 4: llg_stringify_tokens
+            let exp: Vec<u8> = if mode == 4 {
+                trie.tokens_dbg(toks).into_bytes()
+            } else {
+                let s = trie.decode_ext(toks, mode & 1 != 0);
+                if mode & 2 != 0 { String::from_utf8_lossy(&s).to_string().into_bytes() } else { s }
+            };
+            for out_len in 0..=exp.len() + 3 {
+                let mut buf = vec![0xA5u8; out_len + 8];
+                for i in 0..4 {
+                    buf[i] = 0xC1;
+                    buf[out_len + 4 + i] = 0xC1;
+                }
+                let n = unsafe {
+                    let out = buf.as_mut_ptr().add(4) as *mut std::os::raw::c_char;
+                    if mode == 4 { llg_stringify_tokens(&*env.ctok.ptr, toks.as_ptr(), toks.len(), out, out_len) } else { llg_decode_tokens(&*env.ctok.ptr, toks.as_ptr(), toks.len(), out, out_len, mode) }
+                };
+                ctx.count("text_buffer_calls", 1);
+                let body = &buf[4..4 + out_len];
+                let mut ok = n == exp.len() + 1 && buf[..4].iter().all(|b| *b == 0xC1) && buf[out_len + 4..].iter().all(|b| *b == 0xC1);
+                if out_len > 0 {
+                    let k = exp.len().min(out_len - 1);
+                    ok = ok && body[..k] == exp[..k] && body[k] == 0 && body[k + 1..].iter().all(|b| *b == 0xA5);
+                } else {
+                    ok = ok && body.iter().all(|b| *b == 0xA5);
+                }
+                if !ok {
+                    return Err(v("decode_tokens_buffer", json!({"tokens": toks, "mode": mode, "out_len": out_len, "returned": n, "expected": show(&exp), "buffer": show(&buf)})));
+                }
+            }
+        }
+    }
+    // error strings of a refused tokenizer: every error buffer length
+    for err_len in 0..40usize {
+        let lens: Vec<u32> = vec![1, 1];
+        let bytes: Vec<u8> = vec![b'a', b'b'];
+        let init = LlgTokenizerInit {
+            vocab_size: 2,
+            tok_eos: 1,
+            token_lens: lens.as_ptr(),
+            token_bytes: bytes.as_ptr(),
+            tokenizer_json: std::ptr::null(),
+            tokenize_assumes_string: false,
+            tokenize_fn: None,
+            use_approximate_greedy_tokenize_fn: false, // refused: no tokenize function at all
+            tokenize_user_data: std::ptr::null(),
+            slices: std::ptr::null(),
+        };
+        let mut buf = vec![0xA5u8; err_len + 8];
+        for i in 0..4 {
+            buf[i] = 0xC1;
+            buf[err_len + 4 + i] = 0xC1;
+        }
+        let p = unsafe { llg_new_tokenizer(&init, buf.as_mut_ptr().add(4) as *mut std::os::raw::c_char, err_len) };
+        ctx.count("text_buffer_calls", 1);
+        if !p.is_null() {
+            unsafe { llg_free_tokenizer(p) };
+            return Err(v("invalid_tokenizer_accepted", json!({})));
+        }
+        let body = &buf[4..4 + err_len];
+        let nul = body.iter().position(|b| *b == 0);
+        let ok = buf[..4].iter().all(|b| *b == 0xC1) && buf[err_len + 4..].iter().all(|b| *b == 0xC1) && (err_len == 0 || nul.is_some()) && nul.map_or(true, |k| body[k + 1..].iter().all(|b| *b == 0xA5));
+        if !ok {
+            return Err(v("error_string_buffer", json!({"err_len": err_len, "buffer": show(&buf)})));
+        }
+    }
+    Ok(())
+}
+
 pub fn run(ctx: &Ctx) -> Coverage {
     ARMED.store(true, Ordering::SeqCst);
     let grammars: Vec<(String, String)> = vec![
@@ -478,6 +592,9 @@ pub fn run(ctx: &Ctx) -> Coverage {
         let mut factory = ParserFactory::new(&renv, caps, &llguidance::earley::SlicedBiasComputer::general_slices()).unwrap();
         factory.quiet();
         let env = Env { ctok, factory, n_vocab: n };
+        if let Err(v) = text_buffers(ctx, &env, &renv) {
+            ctx.violation(v);
+        }
         for g in grammars.iter() {
             explore_grammar(ctx, &env, g, depth);
         }
@@ -491,6 +608,6 @@ pub fn run(ctx: &Ctx) -> Coverage {
         ctx.machinery_error("vacuous run: llg_par_compute_mask never called");
     }
     Coverage::StateGraph {
-        rule: format!("extern \"C\" functions called from Rust in lock-step with the Rust Constraint/Matcher over all histories to depth {depth} (<= 6 successors per state) on 5 grammars and vocabulary sizes around multiples of 32; masks, commit results, validation counts, rollback, ff tokens compared; llg_matcher_compute_mask_into with exact and short lengths between canaries; llg_par_compute_mask with every destination length 0,4,..,2*mask+8, with and without callback, destination between canaries, all heap blocks followed by a poisoned red zone (over-read shows as poison words, over-write as a broken zone)"),
+        rule: format!("extern \"C\" functions called from Rust in lock-step with the Rust Constraint/Matcher over all histories to depth {depth} (<= 6 successors per state) on 5 grammars and vocabulary sizes around multiples of 32; masks, commit results, validation counts, rollback, ff tokens compared; llg_matcher_compute_mask_into with exact and short lengths between canaries; llg_par_compute_mask with every destination length 0,4,..,2*mask+8, with and without callback, destination between canaries, llg_tokenize_bytes(_marker), llg_decode_tokens (all flag combinations), llg_stringify_tokens and the error string of a refused llg_new_tokenizer with every output length from 0 to the needed size + 2 between canaries (count, prefix, NUL, untouched tail); all heap blocks followed by a poisoned red zone (over-read shows as poison words, over-write as a broken zone)"),
     }
 }
